@@ -1,2 +1,4 @@
 pub mod regex_dfa;
 pub mod cfg_earley;
+pub mod decimal;
+pub mod json_validate;
